@@ -10,6 +10,7 @@ def run(chk):
     sutmon.monitor_start_update_check(chk, (1, 2) if chk.tier == 'quick' else (0, 1, 2, 3))
     chk.obligations = [o for o in chk.obligations if o.name != 'forged-check-counts-as-failure']
     sutmon.monitor_ping(chk, 1, 1)
+    sutmon.monitor_ping(chk, 1, 0)      # a successful ping whose answer names no app still resets the counter
     if chk.tier == 'thorough':
         sutmon.monitor_ping(chk, 2, 2)
     c07.persist_load(chk)
